@@ -177,3 +177,21 @@ func vhC04Extender() {
 	vAssert(len(rows2) == 1+lines, "C04.extender.no-leftover-in-next-frame")
 	vCover("C04.extender.reach")
 }
+
+// ---- C03/C04 (render delay): once the delay has ended, the final frame goes to the real output, whichever of
+// the ready channels (delay over, refresh request, container done) the container goroutine serves first.
+// Whole schedule symbolic (every goroutine of the container, the ticker included).
+func vhC03DelayThenShutdown() {
+	delay := make(chan struct{})
+	e := vNewContainer(vAuto, -1, WithRenderDelay(delay))
+	m := vNewMark(0)
+	b, err := e.p.Add(3, m, BarFillerTrim())
+	vAssert(err == nil, "C03.delay.add-ok")
+	close(delay)
+	e.p.Shutdown()
+	e.rec.closed = true
+	vAssert(b.Aborted() && !b.Completed(), "C03.delay.bar-aborted")
+	last := e.rec.n - 1
+	vAssert(e.rec.n >= 1 && e.rec.w[last] == 1 && e.rec.nl[last] == 1, "C03.delay.final-frame-written-after-the-delay-ended")
+	vCover("C03.delay.reach")
+}
